@@ -90,6 +90,8 @@ macro_rules! arith {
             (A::Decimal(a), A::Decimal(b)) => A::new_decimal(checked_binary_op(a.as_ref(), b.as_ref(), stringify!($name), |a, b| (*a).$checked(*b))?),
 
             (A::Date(a), A::Interval(b)) => A::new_date(binary_op(a.as_ref(), b.as_ref(), |a, b| *a $op *b)),
+            // (`interval + date`: also what add-comm makes of `date + interval`)
+            (A::Interval(_), A::Date(_)) if stringify!($name) == "add" => return other.$name(self),
 
             // the untyped NULL (`a + NULL`)
             (A::Null(a), _) | (_, A::Null(a)) => A::Null(a.clone()),
